@@ -32,16 +32,21 @@ func TestMain(m *testing.M) {
 type cfgKey struct {
 	stream  bool
 	readBuf int
+	noNorm  bool // DisableHeaderNamesNormalizing: framing headers must still be recognised whatever their case
 }
 
 var servers = map[cfgKey]*srv.Echo{}
 
-func server(stream bool, readBuf int) *srv.Echo {
-	k := cfgKey{stream, readBuf}
+func server(stream bool, readBuf int, noNorm ...bool) *srv.Echo {
+	k := cfgKey{stream, readBuf, len(noNorm) > 0 && noNorm[0]}
 	if s, ok := servers[k]; ok {
 		return s
 	}
-	s := srv.NewEcho(srv.Config{Stream: stream, ReadBuf: readBuf, MaxBody: 8 << 20, ReadBody: readBody})
+	cfg := srv.Config{Stream: stream, ReadBuf: readBuf, MaxBody: 8 << 20, ReadBody: readBody}
+	if k.noNorm {
+		cfg.Extra = []config.Option{hserver.WithDisableHeaderNamesNormalizing(true)}
+	}
+	s := srv.NewEcho(cfg)
 	servers[k] = s
 	return s
 }
@@ -243,9 +248,13 @@ func TestC01Streams(t *testing.T) {
 			cls = append(cls, "handler-leaves-streamed-body-unread")
 		}
 		defer func() { curStop = -1 }()
-		rec.Case(nt, ev.Hash(s.Bytes, []byte(fmt.Sprint(stream, readBuf, s.Cuts, curStop))), cls...)
-		if msg := CheckStream(server(stream, readBuf), s); msg != "" {
-			t.Fatalf("streaming=%v readBuf=%d handlerStopsAfter=%d cuts=%v\n%s\nstream: %s", stream, readBuf, curStop, trimInts(s.Cuts), msg, srv.Short(s.Bytes))
+		noNorm := rapid.IntRange(0, 3).Draw(t, "disableHeaderNamesNormalizing") == 0
+		if noNorm {
+			cls = append(cls, "cfg-header-names-not-normalised")
+		}
+		rec.Case(nt, ev.Hash(s.Bytes, []byte(fmt.Sprint(stream, readBuf, s.Cuts, curStop, noNorm))), cls...)
+		if msg := CheckStream(server(stream, readBuf, noNorm), s); msg != "" {
+			t.Fatalf("streaming=%v readBuf=%d handlerStopsAfter=%d headerNamesNormalised=%v cuts=%v\n%s\nstream: %s", stream, readBuf, curStop, !noNorm, trimInts(s.Cuts), msg, srv.Short(s.Bytes))
 		}
 		if nt && rec.WantSample() {
 			rec.Sample(sample(s, stream, readBuf))
